@@ -193,13 +193,17 @@ def run(ctx) -> None:
         if d["pend"] is not None:
             continue
         if (not d["started"] or d["paused"]) and d["hw"] not in ("safe", "psafe"):
-            kind = "engine start" if (d["hw"] == "unknown") else ("paused" if d["paused"] else "no run")
+            kind = "engine start" if (d["hw"] == "unknown") else ("paused" if d["paused"] and d["started"] else "no run")
             if kind == "paused" and d["err"]:
                 kind = "paused/error pause"
+            if kind == "no run" and d["err"]:
+                kind = "no run after an error"      # the run ended while a hardware write had failed
             if kind not in seen:
                 seen[kind] = s
     structural = {fd.rule for fd in ctx.findings}
-    explained = {"engine start": "R08a", "paused": "R08d", "paused/error pause": "R08c", "no run": "R08b"}
+    # which structural finding explains which kind of unsafe state. A run that ends with the hardware unsafe and *no* error on record is
+    # explained by nothing: it is always reported.
+    explained = {"engine start": "R08a", "paused": "R08d", "paused/error pause": "R08c", "no run after an error": "R08b", "no run": None}
     if not seen:
         ctx.ok("R08e", f"hardware ghost is safe in all no-run/paused states ({len(ex.reach)} states)")
     for kind, s in seen.items():
